@@ -35,7 +35,7 @@ CHECKS = {
     "C20": dict(
         text="_get_highest_answer, lookup_dc and async_lookup_dc are executed on 1..5 SRV records with symbolic priority/weight/port in any order (the native sort "
              "runs on symbolic keys, so every ordering and tie is a path); z3 proves min-priority/max-weight selection, field preservation, dot stripping, the "
-             "queried name/type/search flag and sync==async; duplicate hosts (same / differently spelled) included. The four public functions are run with no server and an uncovered cache against recording lookup / GetKey stubs: the blob's (the caller's) domain is looked up once and GetKey goes to the returned target.",
+             "queried name/type/search flag and sync==async; duplicate hosts (same / differently spelled) and hosts with punycode labels included; targets are real dns.name.Name objects. The four public functions are run with no server and an uncovered cache against recording lookup / GetKey stubs: the blob's (the caller's) domain is looked up once and GetKey goes to the returned target.",
         note="Trusted: interpreter, z3, resolver stub. More than 5 records and unlisted domain strings are outside the claim."),
     "C12": dict(
         text="Every pack/unpack pair of the DCE/RPC PDUs, security trailer, verification-trailer commands, tower floors and ept_map messages is executed on messages whose "
